@@ -77,6 +77,10 @@ EXPLANATION += (
     ' Round 12: the downward correlation inheritance runs before the upward one (R-ORDER/correlation-inheritance).'
 )
 
+EXPLANATION += (
+    ' Round 13: n_assignments is handed on unchanged along the election call chain; only choose_node clamps it, by the number of vote columns (R-FWD/candidates-unchanged).'
+)
+
 RULE_TEXT = (
     "one obligation per arithmetic relation (quotient, divisor, slice "
     "bound, constant, loop shape); non-trivial when the construct exists")
